@@ -5,8 +5,8 @@ import ast
 
 from sa.astx import body_walk, call_attr, call_name, dotted, src
 from sa.selftest import Mutant, Silent
-from sa.source import methods
-from sa.props._lib_c import (anchor_methods, section, LOGGER, assign_pairs, enclosing, gfind, is_const, isolating_with, must_pass, no_exc, parents, self_attr,
+from sa.source import AnalysisError, class_assigns, methods
+from sa.props._lib_c import (norm_class, anchor_methods, section, LOGGER, assign_pairs, enclosing, gfind, is_const, isolating_with, must_pass, no_exc, parents, self_attr,
                              swallowing_predicate)
 
 PROPERTY = "C12"
@@ -25,6 +25,9 @@ EXPLANATION = (
     "before-trigger already ran. Not decided: DeferredList's own semantics (C04), what triggers do."
 )
 ASSUMPTIONS = [
+    "rules read a normalised copy of the class: a private non-generator method that is not an anchor, is only ever called as self._h(...) "
+    "inside its class and is mentioned in no other module is inlined at its call sites; single-assignment naming temporaries are substituted "
+    "only where nothing they read is written (and no call runs) in between",
     "DeferredList(list) fires its callback only after every Deferred of the list fired, failures included (C04)",
     "the failure handler's logging call (_fail) does not itself raise",
 ]
@@ -47,17 +50,75 @@ def _is_pop(c):
     return isinstance(c, ast.Call) and isinstance(c.func, ast.Attribute) and c.func.attr in ("pop", "popleft", "popitem")
 
 
+_CLS = [None]
+_MOD = [None]
+
+
+def _const_tuple(e):
+    """Constant values of a tuple/list/set literal, or of a class-level / module-level constant naming one."""
+    if isinstance(e, ast.Attribute) and isinstance(e.value, ast.Name) and e.value.id in ("self", "cls") and _CLS[0] is not None:
+        e = class_assigns(_CLS[0]).get(e.attr)
+    elif isinstance(e, ast.Name) and _MOD[0] is not None:
+        e = _MOD[0].module_assign(e.id)
+    if isinstance(e, ast.Call) and dotted(e.func) in ("frozenset", "set", "tuple") and len(e.args) == 1:
+        e = e.args[0]
+    if isinstance(e, (ast.Tuple, ast.List, ast.Set)) and all(isinstance(x, ast.Constant) for x in e.elts):
+        return [x.value for x in e.elts]
+    return None
+
+
 def _phase_guard(g, n, var):
     """Node n runs only when ``var`` is one of the three phase names."""
     for t, lab in g.edge_guards(n):
         e = g.node(t).ast
-        if isinstance(e, ast.Compare) and len(e.ops) == 1 and src(e.left) == var and isinstance(e.comparators[0], (ast.Tuple, ast.List, ast.Set)):
-            vals = [x.value for x in e.comparators[0].elts if isinstance(x, ast.Constant)]
-            if sorted(vals) != sorted(PHASES) or len(vals) != len(e.comparators[0].elts):
+        if isinstance(e, ast.Compare) and len(e.ops) == 1 and src(e.left) == var:
+            vals = _const_tuple(e.comparators[0])
+            if vals is None or sorted(map(str, vals)) != sorted(PHASES):
                 continue
             if (isinstance(e.ops[0], ast.NotIn) and lab == "F") or (isinstance(e.ops[0], ast.In) and lab == "T"):
                 return True
     return False
+
+
+def _drain_generator(fn):
+    """``def g(lst): while lst: yield lst.pop(0)`` (any spelling): a generator all of whose yields deliver an element
+    just popped from the head of its single list parameter, under a non-empty test -> parameter name, else None."""
+    if not isinstance(fn, ast.FunctionDef):
+        return None
+    params = [a.arg for a in fn.args.args if a.arg not in ("self", "cls")]
+    if len(params) != 1 or fn.args.vararg or fn.args.kwarg:
+        return None
+    p = params[0]
+    ys = [n for n in body_walk(fn) if isinstance(n, (ast.Yield, ast.YieldFrom))]
+    if not ys or any(isinstance(y, ast.YieldFrom) for y in ys):
+        return None
+    popped = {t.id for st in body_walk(fn) for t, v in assign_pairs(st) if isinstance(t, ast.Name) and _is_pop(v) and src(v.func.value) == p}
+    for y in ys:
+        v = y.value
+        if not ((_is_pop(v) and src(v.func.value) == p) or (isinstance(v, ast.Name) and v.id in popped)):
+            return None
+    return p
+
+
+def _drained_lists(e, mod, cls):
+    """Lists consumed, in order, by iterating ``e``: G(lst) for a drain generator G, chain(...) of those."""
+    if isinstance(e, ast.Call) and dotted(e.func) in ("chain", "itertools.chain") and e.args and not e.keywords:
+        out = []
+        for a in e.args:
+            r = _drained_lists(a, mod, cls)
+            if r is None:
+                return None
+            out += r
+        return out
+    if isinstance(e, ast.Call) and len(e.args) == 1 and not e.keywords:
+        fn = None
+        if isinstance(e.func, ast.Name):
+            fn = mod.find(e.func.id)
+        elif isinstance(e.func, ast.Attribute) and isinstance(e.func.value, ast.Name) and e.func.value.id == "self":
+            fn = methods(cls).get(e.func.attr)
+        if _drain_generator(fn):
+            return [(src(e.args[0]), fn)]
+    return None
 
 
 def _getattr_self(e, var=None):
@@ -68,6 +129,49 @@ def _getattr_self(e, var=None):
 def _drain_sites(ctx, f, g, q, names, lists_ok, rule_prefix):
     """Common obligations of a drain loop.  Returns [(pop node id, call-out node id, (f, a, kw) names, list text)]."""
     out = []
+    # shape B: for (f, a, kw) in <drain generator over the list(s)>:
+    for h in g.ids(lambda n: n.kind == "for"):
+        loop = g.node(h).ast
+        dl = _drained_lists(loop.iter, _MOD[0], _CLS[0])
+        if dl is None:
+            if any(l in src(loop.iter) for l in lists_ok if l.startswith("self.")) and isinstance(loop.iter, ast.Call):
+                raise AnalysisError(f"C12: {q}: loop over {src(loop.iter)} - not a recognised way of draining a trigger list")
+            continue
+        key = ctx.construct(q, f"for ... in {src(loop.iter)}")
+        for lst, gen in dl:
+            gq = f"twisted.internet.base.{gen.name}"
+            gg = ctx.cfg(gen)
+            prm = _drain_generator(gen)
+            for n in gfind(gg, _is_pop):
+                call = next(x for x in ast.walk(gg.node(n).ast) if _is_pop(x))
+                ctx.check(_pop_first(call), "order/consumed-from-head", ctx.construct(gq, "<pop>"),
+                          f"the drain generator does not consume its list from the head: triggers run in reverse registration order")
+                ctx.check(gg.guarded(n, lambda e: src(e) == prm, True), "order/consumed-from-head", ctx.construct(gq, "<pop>") + " | <non-empty>", "pop is not guarded by a non-empty test")
+            # the generator re-tests the live list before every element and can only end when it is empty
+            ctx.check(bool(gg.ids(lambda n: n.kind == "test" and src(n.ast) == prm)), "once/every-popped-trigger-runs", gq, "the drain generator can stop while its list is non-empty")
+        ok = isinstance(loop.target, (ast.Tuple, ast.List)) and len(loop.target.elts) == 3 and all(isinstance(e, ast.Name) for e in loop.target.elts)
+        ctx.check(ok, "once/trigger-unpacked", key, "the drained trigger is not unpacked into (callable, args, kwargs)")
+        if not ok:
+            continue
+        fn, a, kw = [e.id for e in loop.target.elts]
+        outs = gfind(g, lambda x: isinstance(x, ast.Call) and isinstance(x.func, ast.Name) and x.func.id == fn and enclosing(x, (ast.For, ast.While)) is loop)
+        ctx.check(len(outs) == 1, "once/called-once-per-pop", key, f"a drained trigger reaches {len(outs)} call sites per iteration (exactly one expected)")
+        it = [d for d, l in g.succ[h] if l == "iter"]
+        w = must_pass(g, it, outs, to=[h, g.exit], exc=False)
+        ctx.check(bool(outs) and w is None, "once/every-popped-trigger-runs", key, "a trigger can be removed from the list without being called", witness=g.describe(w))
+        for o in outs:
+            c = next(x for x in ast.walk(g.node(o).ast) if isinstance(x, ast.Call) and isinstance(x.func, ast.Name) and x.func.id == fn)
+            okey = ctx.construct(q, "<trigger call-out>")
+            okargs = (len(c.args) == 1 and isinstance(c.args[0], ast.Starred) and src(c.args[0].value) == a and len(c.keywords) == 1
+                      and c.keywords[0].arg is None and src(c.keywords[0].value) == kw)
+            ctx.check(okargs, "once/registered-arguments", okey, "the trigger is not called with exactly its registered *args, **kwargs")
+            ctx.check(isolating_with(c, names) is not None, "isolation/swallowing-with-inside-loop", okey,
+                      "the trigger call-out is not wrapped, inside the loop, by a failure handler that swallows exceptions: one raising trigger "
+                      "prevents the remaining triggers (and phases) from running")
+            esc = [d for d, l in g.succ[o] if l == "exc" and g.node(d).kind != "with_exit"]
+            ctx.check(not esc, "isolation/no-escape", okey, "an exception of the trigger leaves the loop", witness=g.describe([o] + esc[:1]))
+            for i, (lst, gen) in enumerate(dl):
+                out.append((h, o, (fn, a, kw), lst))
     pops = gfind(g, _is_pop)
     for n in pops:
         st = g.node(n).ast
@@ -109,7 +213,9 @@ def _drain_sites(ctx, f, g, q, names, lists_ok, rule_prefix):
 
 def check(ctx):
     mod = ctx.mod(BASE)
-    cls = ctx.cls(BASE, "_ThreePhaseEvent")
+    KEEP = ("addTrigger", "removeTrigger", "removeTrigger_BASE", "removeTrigger_BEFORE", "fireEvent", "_continueFiring", "__init__")
+    cls = norm_class(ctx, BASE, "_ThreePhaseEvent", KEEP)
+    _CLS[0], _MOD[0] = cls, mod
     m = anchor_methods(ctx, BASE, cls, ("addTrigger", "removeTrigger", "removeTrigger_BASE", "removeTrigger_BEFORE", "fireEvent", "_continueFiring"))
     names, swallow = swallowing_predicate(ctx, BASE)
     ctx.check(bool(names), "isolation/handlers-derived", f"twisted.logger._logger.Logger.failureHandler",
@@ -326,7 +432,10 @@ def check(ctx):
         ctx.check({"self.during", "self.after"} <= drained, "phase/during-then-after", q, "not both of during / after are drained: " + ", ".join(sorted(drained)))
         d_p = [pn for pn, _, _, lst in sites if lst == "self.during"]
         a_p = [pn for pn, _, _, lst in sites if lst == "self.after"]
-        if d_p and a_p:
+        seq = [lst for _, _, _, lst in sites if lst in ("self.during", "self.after")]
+        if d_p and a_p and set(d_p) == set(a_p):
+            ctx.check(seq == ["self.during", "self.after"], "phase/during-then-after", q + " | <chained drains>", "the phases are not drained in the order during, after")
+        elif d_p and a_p:
             w = g.path(a_p, d_p)
             ctx.check(w is None, "phase/during-then-after", q + " | <explicit loops>", "an after-trigger can run before a during-trigger", witness=g.describe(w))
         ctx.check("self.before" not in {lst for _, _, _, lst in sites}, "phase/during-then-after", q + " | <before>", "before-triggers are consumed in the continuation")
@@ -427,4 +536,18 @@ SILENT = [
            "        while self.after:\n            callable, args, kwargs = self.after.pop(0)\n            with _systemEventHandler:\n                callable(*args, **kwargs)\n"),
     Silent("phase-test-positive", BASE, "        if phase not in (\"before\", \"during\", \"after\"):\n            raise KeyError(\"invalid phase\")\n        getattr(self, phase).append((callable, args, kwargs))\n",
            "        if phase in (\"before\", \"during\", \"after\"):\n            getattr(self, phase).append((callable, args, kwargs))\n        else:\n            raise KeyError(\"invalid phase\")\n"),
+
+    # --- shapes of the independent refactor set
+    Silent("phase-names-as-class-constant", BASE, "        if phase not in (\"before\", \"during\", \"after\"):\n            raise KeyError(\"invalid phase\")\n        getattr(self, phase).append((callable, args, kwargs))\n",
+           "        if phase not in self._PHASES:\n            raise KeyError(\"invalid phase\")\n        target = getattr(self, phase)\n        target.append((callable, args, kwargs))\n",
+           more=[(BASE, "    def addTrigger(\n", "    _PHASES = (\"before\", \"during\", \"after\")\n\n    def addTrigger(\n"),
+                 (BASE, "        else:\n            self.removeTrigger_BASE(handle)\n\n    def fireEvent", "            return\n        self.removeTrigger_BASE(handle)\n\n    def fireEvent")]),
+    Silent("late-phases-through-drain-generators", BASE, _CONT,
+           "        for callable, args, kwargs in chain(self._popAll(self.during), self._popAll(self.after)):\n            with _systemEventHandler:\n                callable(*args, **kwargs)\n",
+           more=[(BASE, "    def fireEvent(self) -> None:\n", "    def _popAll(self, pending):\n        while pending:\n            yield pending.pop(0)\n\n    def fireEvent(self) -> None:\n")]),
+    Silent("phase-list-lookup-helper", BASE, "        if phase not in (\"before\", \"during\", \"after\"):\n            raise KeyError(\"invalid phase\")\n        getattr(self, phase).append((callable, args, kwargs))\n",
+           "        self._listFor(phase).append((callable, args, kwargs))\n",
+           more=[(BASE, "    def addTrigger(\n", "    def _listFor(self, phase):\n        if phase not in (\"before\", \"during\", \"after\"):\n            raise KeyError(\"invalid phase\")\n        return getattr(self, phase)\n\n    def addTrigger(\n"),
+                 (BASE, "            if phase not in (\"before\", \"during\", \"after\"):\n                raise KeyError(\"invalid phase\")\n            getattr(self, phase).remove((callable, args, kwargs))\n",
+                  "            self._listFor(phase).remove((callable, args, kwargs))\n")]),
 ]
